@@ -969,7 +969,7 @@ theorem C12_dataclass_list_nec_witness :
       rw [this] at h; simp at h,
     by rfl⟩
 
-/-! ### Union targets: the stages built from the flags (rule.py:381-431) -/
+/-! ### Union targets: the stages built from the flags (rule.py:386-435) -/
 
 open Utv.C12M in
 /-- the stage skeleton with no_data_loss (alone or with no_explicit_cast) returns its lenient result, for
@@ -1417,7 +1417,7 @@ example : KnownDefect P0 Eab ⟨true, true⟩ (.enum 0) (.str 0 "B") = false ∧
 /-- `StrOfSeqLaw` is satisfiable -/
 example : StrOfSeqLaw P0 := fun _ _ _ _ h => by simp [P0] at h
 
-/-! ### preferences that arrive by inheritance / from an outer class (base.py:41-64, options.py:249-258) -/
+/-! ### preferences that arrive by inheritance / from an outer class (base.py:41-67, options.py:249-258) -/
 
 open Utv.C12M in
 /-- **C12_inherited_preferences_restates_model** (`declaredFlags` / `contextFlags` are hand models of `getattr` along
